@@ -13,7 +13,7 @@ using embedded_pairing::core::BigInt;
 namespace wk = embedded_pairing::wkdibe;
 
 #define MAXP 8
-#define MAXK 256
+#define MAXK 1024
 #define MAXS 64
 #define MAXATTR 64
 
